@@ -374,11 +374,13 @@ def rule_traverse(ctx, rep):
 
     def tree():
         # src -(tuple)-> a, b ;  a -(list)-> c, d ;  c -(tuple)-> e ;  d -(list)-> [] ;  b, e leaves
-        e = Obj(spanc, {'_n': 'e'})
-        c = Obj(spanc, {'_children': (e,), '_n': 'c'})
+        # the two leaves b and e carry the same text: equal by value if the class compares by value, yet two tokens
+        same_text = AbsStr(label='text')
+        e = Obj(spanc, {'_n': 'e', 'content': same_text})
+        c = Obj(spanc, {'_children': (e,), '_n': 'c', 'content': AbsStr(label='other')})
         d = Obj(tokc, {'_children': [], '_n': 'd'})
         a = Obj(tokc, {'_children': [c, d], '_n': 'a'})
-        b = Obj(spanc, {'_children': None, '_n': 'b'})
+        b = Obj(spanc, {'_children': None, '_n': 'b', 'content': same_text})
         src = Obj(tokc, {'_children': (a, b), '_n': 'src'})
         return src, a, b, c, d, e
     cases = [
